@@ -14,6 +14,7 @@ import (
 	"github.com/ethereum/go-ethereum/p2p/enode"
 	"github.com/ethereum/go-ethereum/p2p/enr"
 	"github.com/zen-eth/shisui/portalwire"
+	utp "github.com/zen-eth/utp-go"
 
 	"verifharness/common"
 	"verifharness/netsim"
@@ -35,6 +36,7 @@ type permitWatch struct {
 	recvStarts, recvEnds            int
 	acqIn, relIn, acqOut, relOut    int
 	maxIn, maxOut                   int
+	maxT                            int // high-water mark of outbound transfer goroutines running at once (events, not permits)
 	overRelease                     bool
 	ctl                             interface{} // the observed node\'s utpController (events of other nodes are ignored)
 	learning                        bool
@@ -86,6 +88,9 @@ func (p *permitWatch) install() {
 			p.returns++
 		case "offer.transfer.start":
 			p.tstarts++
+			if p.tstarts-p.tends > p.maxT {
+				p.maxT = p.tstarts - p.tends
+			}
 		case "offer.transfer.end":
 			p.tends++
 		case "offer.recv.start":
@@ -100,7 +105,7 @@ func (p *permitWatch) snapshot() map[string]int {
 	p.mu.Lock()
 	defer p.mu.Unlock()
 	return map[string]int{"starts": p.starts, "returns": p.returns, "tstarts": p.tstarts, "tends": p.tends, "recvStarts": p.recvStarts,
-		"recvEnds": p.recvEnds, "acqIn": p.acqIn, "relIn": p.relIn, "acqOut": p.acqOut, "relOut": p.relOut, "maxIn": p.maxIn, "maxOut": p.maxOut}
+		"recvEnds": p.recvEnds, "acqIn": p.acqIn, "relIn": p.relIn, "acqOut": p.acqOut, "relOut": p.relOut, "maxIn": p.maxIn, "maxOut": p.maxOut, "maxT": p.maxT}
 }
 
 func runPermits(w *tracelog.Writer, out string, seed int64, scenarios, workers int, slow bool, child int) error {
@@ -186,6 +191,11 @@ func permitScenario(t int, seed int64, slow bool) ([]map[string]any, error) {
 	if floodStop {
 		limit = 600
 	}
+	// forced overlap of outbound transfers: more slow successful peers than slots, gossip rounds staggered in time
+	overlapOut := !flood && t%6 == 2
+	if overlapOut {
+		limit = 1 + rng.Intn(2)
+	}
 	A, err := netsim.NewNode(sw, netsim.NodeOpts{IP: "10.0.0.1", Port: 9001, MaxUtp: limit, QueueCap: 200})
 	if err != nil {
 		return nil, err
@@ -211,6 +221,12 @@ func permitScenario(t int, seed int64, slow bool) ([]map[string]any, error) {
 	}()
 	var out []map[string]any
 	out = append(out, map[string]any{"ev": "pm.init", "limit": limit, "flood": flood})
+	t0 := time.Now()
+	dbg := func(what string) {
+		if os.Getenv("VERIF_DEBUG") != "" {
+			fmt.Fprintf(os.Stderr, "[permits t=%d] %6.2fs %s\n", t, time.Since(t0).Seconds(), what)
+		}
+	}
 	emitQ := func(phase string, stoppedNow bool) {
 		s := pw.snapshot()
 		ev := map[string]any{"ev": "pm.quiescent", "phase": phase, "limit": limit, "stopped": stoppedNow, "queued": portalwire.VerifOfferQueueLen(A.P),
@@ -257,15 +273,31 @@ func permitScenario(t int, seed int64, slow bool) ([]map[string]any, error) {
 	if flood {
 		npeers = 8
 	}
+	if overlapOut {
+		npeers = limit + 2
+	}
 	var peerKinds []int
+	slowIPs := map[string]bool{}
+	sw.SetFault(func(d netsim.Datagram, _ []byte) (bool, bool, time.Duration) {
+		if slowIPs[d.From.Addr().String()] || slowIPs[d.To.Addr().String()] {
+			return false, false, 60 * time.Millisecond
+		}
+		return false, false, 0
+	})
 	for i := 0; i < npeers; i++ {
 		k := kinds[rng.Intn(len(kinds))]
 		if flood {
 			k = pkSilent
 		}
+		if overlapOut {
+			k = pkSuccess
+		}
 		peerKinds = append(peerKinds, k)
 		ip := fmt.Sprintf("10.4.0.%d", 10+i)
 		if k == pkSuccess {
+			if rng.Intn(2) == 0 || overlapOut { // a slow link: transfers to this peer last long enough to overlap with others
+				slowIPs[ip] = true
+			}
 			B, err := netsim.NewNode(sw, netsim.NodeOpts{IP: ip, Port: 9100, MaxUtp: 64, QueueCap: 4000})
 			if err != nil {
 				return nil, err
@@ -360,7 +392,10 @@ func permitScenario(t int, seed int64, slow bool) ([]map[string]any, error) {
 	if floodStop {
 		rounds = 60
 	}
-	stopMid := (!flood && rng.Intn(4) == 0) || floodStop
+	if overlapOut {
+		rounds = 8
+	}
+	stopMid := (!flood && !overlapOut && rng.Intn(4) == 0) || floodStop
 	var wg sync.WaitGroup
 	gossiped := 0
 	var gmu sync.Mutex
@@ -377,8 +412,12 @@ func permitScenario(t int, seed int64, slow bool) ([]map[string]any, error) {
 		if r%16 == 15 {
 			wg.Wait()
 		}
+		if overlapOut {
+			time.Sleep(80 * time.Millisecond)
+		}
 	}
 	wg.Wait()
+	dbg("gossip rounds done")
 	out = append(out, map[string]any{"ev": "pm.gossip", "rounds": rounds, "peers": kn, "targets": gossiped, "stopMid": stopMid})
 	if stopMid {
 		if !floodStop {
@@ -399,6 +438,7 @@ func permitScenario(t int, seed int64, slow bool) ([]map[string]any, error) {
 		maxWait = 100 * time.Second
 	}
 	if waitQuiet(maxWait, false) {
+		dbg("outbound quiet")
 		emitQ("outbound", false)
 	} else {
 		out = append(out, map[string]any{"ev": "pm.noquiet", "phase": "outbound"})
@@ -419,23 +459,51 @@ func permitScenario(t int, seed int64, slow bool) ([]map[string]any, error) {
 		}
 	}()
 	nin := 2 + rng.Intn(5)
+	forceOpen := t%4 == 1 && limit > 0 // the first `limit` accepted offers keep their stream open, then one more offer follows
+	if forceOpen && nin < limit+2 {
+		nin = limit + 2
+	}
 	inKinds := []string{}
+	// streams the harness has established for an accepted offer and not finished yet: while such a stream is young
+	// (the reader's timeout is 60 s, uTP's idle timeout 60 s) the transfer is in progress at the node whatever it
+	// thinks of its slots
+	type openStream struct {
+		s      *utp.UtpStream
+		since  time.Time
+		cancel func() // of the dialling context: cancelling it shuts the stream down
+	}
+	var opened []openStream
 	for i := 0; i < nin; i++ {
 		key := []byte{byte(t), 0xee, byte(i), byte(rng.Intn(256))}
 		off := &portalwire.Offer{ContentKeys: [][]byte{key}}
 		ob, _ := off.MarshalSSZ()
 		resp, err := C.D5.TalkRequest(A.P.Self(), string(portalwire.History), append([]byte{portalwire.OFFER}, ob...))
+		openSure := 0
+		now := time.Now()
+		for _, o := range opened {
+			if now.Sub(o.since) < 20*time.Second {
+				openSure++
+			}
+		}
 		if err != nil || len(resp) < 2 || resp[0] != portalwire.ACCEPT {
 			inKinds = append(inKinds, "noreply")
 			continue
 		}
 		acc := &portalwire.AcceptV1{}
-		if err := acc.UnmarshalSSZ(resp[1:]); err != nil || len(acc.ContentKeys) != 1 || acc.ContentKeys[0] != 0 {
+		if err := acc.UnmarshalSSZ(resp[1:]); err != nil || len(acc.ContentKeys) != 1 {
+			inKinds = append(inKinds, "undecodable")
+			continue
+		}
+		out = append(out, map[string]any{"ev": "pm.offerin", "limit": limit, "openSure": openSure, "accepted": acc.ContentKeys[0] == 0, "verdict": int(acc.ContentKeys[0])})
+		if acc.ContentKeys[0] != 0 {
 			inKinds = append(inKinds, "declined")
 			continue
 		}
 		cid := binary.BigEndian.Uint16(acc.ConnectionId)
-		kind := []string{"ok", "ok", "badcount", "garbage", "never"}[rng.Intn(5)]
+		kind := []string{"ok", "ok", "badcount", "garbage", "never", "open", "open"}[rng.Intn(7)]
+		if forceOpen && len(opened) < limit {
+			kind = "open"
+		}
 		if !slow && kind == "never" {
 			kind = "ok" // the abandoned transfer ends only with the code's 15 s accept timeout
 		}
@@ -449,6 +517,19 @@ func permitScenario(t int, seed int64, slow bool) ([]map[string]any, error) {
 		} else if kind == "garbage" {
 			payload = []byte{0xff, 0xff, 0xff, 0xff, 0xff, 0xff, 1}
 		}
+		if kind == "open" {
+			ctx, cancel := contextWithTimeout(50 * time.Second)
+			st, err := C.P.Utp.DialWithCid(ctx, A.P.Self(), cid)
+			if err == nil {
+				st.Write(ctx, payload[:3]) // the beginning only: the reader keeps waiting for the end of the stream
+				opened = append(opened, openStream{st, time.Now(), cancel})
+				time.Sleep(150 * time.Millisecond) // let the node's receive goroutine get past its accept
+			} else {
+				inKinds[len(inKinds)-1] = "open-failed"
+				cancel()
+			}
+			continue
+		}
 		go func() {
 			ctx, cancel := contextWithTimeout(10 * time.Second)
 			defer cancel()
@@ -460,9 +541,20 @@ func permitScenario(t int, seed int64, slow bool) ([]map[string]any, error) {
 			s.Close()
 		}()
 	}
+	dbg("inbound offers sent")
+	for _, o := range opened { // finish the held streams
+		ctx, cancel := contextWithTimeout(10 * time.Second)
+		_, werr := o.s.Write(ctx, portalwire.VerifEncodeContents([][]byte{bytes.Repeat([]byte{1}, 500)})[3:])
+		o.s.Close()
+		cancel()
+		o.cancel()
+		dbg(fmt.Sprintf("finish write err=%v", werr))
+	}
+	dbg("held streams finished")
 	out = append(out, map[string]any{"ev": "pm.inbound", "offers": inKinds})
 	// after a finished transfer the receive goroutine runs one more accept (15 s) before it ends: await the events
 	if waitQuiet(60*time.Second, false) {
+		dbg("inbound quiet")
 		emitQ("inbound", false)
 	} else {
 		out = append(out, map[string]any{"ev": "pm.noquiet", "phase": "inbound"})
